@@ -7,7 +7,7 @@ if [ ! -f model.ml ] || [ ../coq/Extract.v -nt model.ml ] || [ -n "$(find ../coq
   coqc -Q ../coq Ztyp Extract_run.v >/dev/null
   rm -f Extract_run.v Extract_run.vo Extract_run.vok Extract_run.vos Extract_run.glob .Extract_run.aux
 fi
-if [ ! -x driver ] || [ model.ml -nt driver ] || [ util.ml -nt driver ] || [ driver.ml -nt driver ] || [ driver_ops.ml -nt driver ]; then
+if [ ! -x driver ] || [ model.ml -nt driver ] || [ util.ml -nt driver ] || [ driver.ml -nt driver ] || [ driver_ops.ml -nt driver ] || [ hist.ml -nt driver ]; then
   ocamlfind ocamlopt -O3 -unboxed-types 2>/dev/null >/dev/null || true
-  ocamlfind ocamlopt -w -a -o driver model.mli model.ml util.ml driver_ops.ml driver.ml
+  ocamlfind ocamlopt -w -a -o driver model.mli model.ml util.ml hist.ml driver_ops.ml driver.ml
 fi
